@@ -127,7 +127,7 @@ pub open spec fn keyed_from(cipher_key: Seq<u8>, hmac_key: Seq<u8>, password: Se
     && hmac_key == aes_derived(password, salt, m).subrange(k, 2 * k)
 }
 pub open spec fn is_ciphertext_of_len(ct: Seq<u8>, n: int) -> bool { ct.len() == n }
-// one successful `read` that returned n > 0 bytes whose ciphertext was ct: MAC input and decryption
+// one successful `read` (with data remaining) that returned n bytes whose ciphertext was ct: MAC input, decryption, MAC check
 pub open spec fn aes_read_step<R: Read>(o: &AesReaderValid<R>, f: &AesReaderValid<R>, fb: Seq<u8>, n: int, ct: Seq<u8>) -> bool {
     &&& ct.len() == n
     &&& (o.reader.g_dev() && n > 0 ==> ct == at(o.reader.g_bytes(), o.reader.g_pos(), n))
